@@ -255,3 +255,48 @@ def check(report: Report, repo: Repo) -> None:
                 hits.append(f"{ct.args[1]}({', '.join(fmt(a_) for a_ in e['args'])})")
         report.add("R4-transforms", cons, not hits, f"{ename}() does not convert the dtype / device or change the trainability of the parameters of the module it returns", hits, [], nontrivial=False)
     report.floor("producers analysed", 3, 3)
+    check_picklable_state(report, repo)
+
+
+def check_picklable_state(report: Report, repo: Repo) -> None:
+    """A module that keeps a *local* function (a closure, a lambda) among its attributes cannot be pickled /
+    torch.save'd at all -- the tags of the parameters it holds then do not survive that history either."""
+    from ..nnmodel import container_super_hook
+    from ..schemas import dim
+    from ..values import ClassV, FuncV
+
+    MD = "unit_scaling/_modules.py"
+
+    def opaque(f):
+        return isinstance(f, ClassV) and f.qualname in ("TransformerLayer", "Embedding", "RMSNorm", "LinearReadout", "MHSA", "MLP", "Linear")
+
+    scen = {
+        "TransformerStack": dict(layers=2, hidden_size=dim("H"), heads=dim("h"), is_causal=True),
+        "TransformerDecoder": dict(hidden_size=dim("H"), vocab_size=dim("V"), layers=2, heads=dim("h"), dropout_p=0),
+    }
+    for cname, kw in scen.items():
+        it = Interp(repo, opaque=opaque)
+        it.super_hook = container_super_hook("Sequential")
+        cls = it.get_global(MD, cname)
+        cons = f"{MD}::{cname}.__init__::picklable-state"
+        selfv = Obj(f"unit_scaling._modules.{cname}", cls=cls)
+        try:
+            it.call_function(it.class_attr(cls, "__init__"), [selfv], dict(kw))
+        except Unsupported as ex:
+            report.add("R2-pickle-protocol", cons, None, f"outside fragment: {ex}")
+            continue
+        local = []
+
+        def scan(o, path, depth=0):
+            if depth > 3 or not isinstance(o, Obj):
+                return
+            for k_, v_ in o.attrs.items():
+                if isinstance(v_, FuncV) and ("<locals>" in v_.qualname or isinstance(v_.node, __import__("ast").Lambda)):
+                    local.append(f"{path}.{k_} = {v_.qualname}")
+                elif isinstance(v_, Obj) and k_ != "_modules":
+                    scan(v_, f"{path}.{k_}", depth + 1)
+            for k_, m_ in (o.attrs.get("_modules") or {}).items() if isinstance(o.attrs.get("_modules"), dict) else []:
+                scan(m_, f"{path}[{k_}]", depth + 1)
+
+        scan(selfv, cname)
+        report.add("R2-pickle-protocol", cons, not local, f"{cname}(...) with the default rule keeps no local function (closure / lambda) among its attributes: such a module cannot be pickled or torch.save'd, so no tag survives that history", local, [], nontrivial=False)
